@@ -33,6 +33,9 @@ EXPLANATION += (' ' + 'RETAIN/override-store: an override of set_length may stor
 TRUSTED = ['list semantics as modelled', 'hasattr on standard-library modules of the checker\'s interpreter (same Python as the repository\'s)']
 NOT_DECIDED = ['lock-step equivalence with a list model over all operation histories', 'Melody events staying in -2..127 under arbitrary transposition (values)']
 ASSUMPTIONS = ['callers of ChordProgression.from_quantized_sequence pass start_step <= end_step']
+# rules whose verdict does not depend on how the statements are arranged (semantic analyses); all other rules are shape rules:
+# when one of those fails in a function that was restructured relative to reference/signatures.json the verdict is "cannot decide"
+ROBUST = ('IDX', 'IFACE', 'API')
 FLOORS = {'INV': 25, 'IDX': 1, 'SLICE': 1, 'IFACE': 50, 'PAIRED': 4, 'API': 10, 'STEPS': 8, 'RETAIN': 1, 'RANGE': 2}
 
 FAMILY = ['events_lib:SimpleEventSequence', 'melodies_lib:Melody', 'drums_lib:DrumTrack', 'chords_lib:ChordProgression']
@@ -52,6 +55,32 @@ def run(ctx):
   steps_family(ctx)
   retained_side(ctx)
   melody_range(ctx)
+
+
+def _method_closure(ctx, ci, m, depth=3):
+  """The methods (of the class and its bases) that the analysis of m walks into: self.x(...), super().x(...), and
+  every definition of the same name along the mro."""
+  seen = []
+  todo = [(m, 0)]
+  mro = ctx.P.mro(ci)
+  while todo:
+    f, d = todo.pop()
+    if any(f is x for x in seen) or d > depth:
+      continue
+    seen.append(f)
+    names = {f.name}
+    for c in ast.walk(f.node):
+      if isinstance(c, ast.Call) and isinstance(c.func, ast.Attribute):
+        v = c.func.value
+        if (isinstance(v, ast.Name) and v.id == 'self') or (isinstance(v, ast.Call) and dotted(v.func) == 'super'):
+          names.add(c.func.attr)
+      elif isinstance(c, ast.Subscript) and isinstance(c.value, ast.Name) and c.value.id == 'self':
+        names.add('__getitem__')
+    for k in mro:
+      for nme in names:
+        if nme in k.methods and not any(k.methods[nme] is x for x in seen):
+          todo.append((k.methods[nme], d + 1))
+  return [x for x in seen if x is not m]
 
 
 # ------------------------------------------------------------------ S1 / S2
@@ -83,12 +112,13 @@ def invariant(ctx):
           if x not in probs:
             probs.append(x)
       owner = m
+      deps = _method_closure(ctx, ci, m)
       for (p, d) in bad[:3]:
-        ctx.ob('INV/%s' % ci.qualname, owner, p.node if p.node is not None else m.node, False,
+        ctx.ob('INV/%s' % ci.qualname, owner, p.node if p.node is not None else m.node, False, depends=deps, why=
                'on a path ending in %s, %s.%s leaves end_step - start_step - len(events) = %r (len=%r, start=%r, end=%r): length and step range disagree' % (
                    p.exit, ci.qualname, n, d, p.state.L, p.state.S, p.state.E), construct='%s.%s keeps end_step - start_step == len (%s exit)' % (ci.qualname, n, p.exit))
       for (node, why) in probs[:3]:
-        ctx.ob('INV/%s' % ci.qualname, owner, node, False, '%s.%s: %s' % (ci.qualname, n, why), construct='%s.%s: %s' % (ci.qualname, n, why[:80]))
+        ctx.ob('INV/%s' % ci.qualname, owner, node, False, '%s.%s: %s' % (ci.qualname, n, why), construct='%s.%s: %s' % (ci.qualname, n, why[:80]), depends=deps)
       if not bad and not probs:
         ctx.ob('INV/%s' % ci.qualname, owner, m.node, True, '%d paths of %s.%s (resolved to %s) keep end_step - start_step == len(events)' % (len(paths), ci.qualname, n, m.qualname),
                construct='%s.%s keeps end_step - start_step == len' % (ci.qualname, n))
